@@ -32,6 +32,9 @@ def urls_from_text(string):
                 remainder, url = url.split("](", 1)
                 yield remainder.strip()
 
+        if not url:
+            continue
+
         last_punct = None
 
         stop = len(url) - 1
